@@ -135,6 +135,17 @@ add("C18",
     "beyond simplices/boxes (qhull only witness).",
     "Coq proof over Q and R + exact re-computation by vm_compute + Interval enclosures for ln", "DESIGN.md §5 C18")
 
+add("C14",
+    "(F, by induction over arbitrary histories of the Gallina state machine) queries are pure and can be dropped from any history; every answer is a function of the registered "
+    "values; re-registering the adaptation / baseline / targets / system fully replaces the old value for EVERY intermediate history that does not read or write it; registrations "
+    "of independent values commute (background adaptation vs baseline refuted, since adaptation reads the baseline). Tie — the substance of this property: EXHAUSTIVE histories "
+    "(all ordered pairs of 19 pool operations after a system registration; all triples in the thorough tier) plus random histories of length 4-10 are run on the real object; "
+    "after EVERY step its registered values and two capture probes are compared with the model state by the Coq VM; every read-only query is asked twice, caller arrays are "
+    "hashed, and a freshly registered twin must answer in_hull / fit(B) / seeded sampling bit-identically (T).",
+    TRUST + "The immutable model cannot exhibit aliasing or caching: purity on the real object, bit-identical twins and untouched caller arrays are runtime facts, tested not proved. "
+    "fit() with B=None takes the solver's prediction as an oracle input of the model (FitInternal).",
+    "Coq proof (state-machine laws by induction over histories) + step-by-step stateful differential run against the model, exhaustive for short histories", "DESIGN.md §5 C14")
+
 NOT_APPLICABLE = []
 ALL = ["C%02d" % i for i in range(1, 21)]
 
